@@ -52,6 +52,22 @@ use ctx::{Ctx, Tier};
 #[global_allocator]
 static GLOBAL: allocmon::Mon = allocmon::Mon;
 
+/// True in the release-profile child lane: library workloads only (the CLI lanes always drive the shipped
+/// release binary, so repeating them would add nothing).
+pub fn lib_only() -> bool {
+    std::env::var_os("KMON_LIB_ONLY").is_some()
+}
+
+/// Properties whose library workloads are repeated by a child process built with the plain `release`
+/// profile (no debug assertions, no overflow checks): behaviour that differs between build profiles.
+fn release_lane(prop: &str, tier: Tier) -> bool {
+    match prop {
+        "C01" | "C03" | "C04" | "C05" | "C06" | "C08" | "C10" | "C17" | "C19" | "C20" => true,
+        "C02" | "C07" | "C15" | "C18" => tier == Tier::Thorough,
+        _ => false,
+    }
+}
+
 fn level_of(prop: &str) -> &'static str {
     match prop {
         "C04" | "C10" | "C13" => "fault_enumeration",
@@ -133,7 +149,41 @@ fn main() {
 
     // a bug in a monitor must never look like a verdict: a panic outside the guarded calls is reported
     // as inconclusive, with its message
+    let is_child = args.iter().any(|a| a == "--child");
     let body = std::panic::catch_unwind(std::panic::AssertUnwindSafe(|| run_property(&prop, &ctx)));
+    if is_child {
+        if let Err(e) = &body {
+            let msg = e.downcast_ref::<&str>().map(|s| s.to_string()).or_else(|| e.downcast_ref::<String>().cloned()).unwrap_or_default();
+            ctx.inconclusive(&format!("the monitor itself panicked: {}", msg));
+        }
+        ctx.emit_child();
+        std::process::exit(0);
+    }
+    if body.is_ok() && release_lane(&prop, tier) {
+        let bin = std::env::var("KMON_RELEASE").unwrap_or_else(|_| format!("{}/harness/target/release/kmon", ctx::verif_root()));
+        if std::path::Path::new(&bin).exists() {
+            let wd = cli::WorkDir::new("rel");
+            let seed_s = seed.to_string();
+            let mut c = cli::Cmd::new(&wd.path, &[&prop, tier.name(), "--child"]).bin(bin.into()).env("VERIF_SEED", &seed_s).env("VERIF_ROOT", &ctx::verif_root()).env("KMON_LIB_ONLY", "1");
+            for k in ["HOME", "PATH"] {
+                if let Ok(v) = std::env::var(k) {
+                    c = c.env(k, &v);
+                }
+            }
+            c.timeout = std::time::Duration::from_secs(3600);
+            let o = c.run();
+            if ctx.absorb(&o.stdout_s(), "release build") {
+                ctx.seen("release-profile lane finished");
+            } else {
+                match &o.exit {
+                    cli::Exit::Timeout => ctx.inconclusive("release-profile lane: watchdog fired"),
+                    other => ctx.violation(&format!("{}:release-profile-lane:process-died:{}", prop, other.describe()), serde_json::json!({"stderr": o.stderr_s().chars().take(1000).collect::<String>()})),
+                }
+            }
+        } else {
+            ctx.inconclusive("release build of kmon missing");
+        }
+    }
     if let Err(e) = body {
         let msg = e.downcast_ref::<&str>().map(|s| s.to_string()).or_else(|| e.downcast_ref::<String>().cloned()).unwrap_or_else(|| "<non-string panic>".into());
         ctx.inconclusive(&format!("the monitor itself panicked: {}", msg));
